@@ -15,7 +15,7 @@ import struct
 
 import kdrv
 import sessdrv
-from kmip.core import enums, primitives
+from kmip.core import enums, primitives, attributes as cattrs, objects as cobjects
 from kmip.core.messages import payloads
 
 E = enums
@@ -108,7 +108,7 @@ def catalogue(info):
         ('decrypt', [kdrv.decrypt('1', cp, b'\x07' * 32, iv=b'\x01' * 16)]),
         ('sign', [kdrv.sign(info['private'], sp, b'data')]),
         ('signature_verify', [kdrv.signature_verify(info['public'], sp, b'data', b'\x00' * 128)]),
-        ('mac', [kdrv.mac('1', mp, b'data')]),
+        ('mac', [kdrv.mac(cattrs.UniqueIdentifier('1'), mp, cobjects.Data(b'data'))]),
         ('derive_key', [kdrv.derive_key(['1'], params=None)]),
         ('modify_attribute', [kdrv.modify_attribute_v1('1', kdrv.attr('NAME', kdrv.name_value('k1b'), 0))]),
         ('delete_attribute', [kdrv.delete_attribute_v1('1', 'Name', 0)]),
